@@ -31,6 +31,13 @@ func (st *Transfer) hashSearch(targets []target, tagTable map[uint16]int, head r
 		return err
 	}
 
+	if fi.Size() == 0 {
+		// There is nothing to search in an empty file (and the rolling
+		// checksum below needs at least one byte): describe it in full,
+		// like rsync/match.c:match_sums does for len == 0.
+		return st.sendFile(fileIndex, fl)
+	}
+
 	readSize := max(3*head.BlockLength, 256*1024)
 	ms := mapFile(f, fi.Size(), readSize, head.BlockLength)
 
